@@ -4,10 +4,15 @@
 mod api;
 mod util;
 mod apitrace;
+mod codec;
 mod fcases;
+mod hostile;
 mod refmath;
+mod ring;
+mod scalar;
 
 use util::Args;
+pub use codec::patch_field as codec_patch_field;
 
 fn main() {
     util::install_panic_hook();
@@ -16,6 +21,10 @@ fn main() {
     let args = Args::parse(&a[2..]);
     match a[1].as_str() {
         "keygen" | "sign" | "verify" | "replayf" => fcases::run(a[1].as_str(), &args),
+        "scalar" => scalar::run(&args),
+        "ring" => ring::run(&args),
+        "codec" | "skfields" => codec::run(a[1].as_str(), &args),
+        "hostile" => hostile::run(&args),
         "api" => apitrace::run(&args),
         other => { eprintln!("unknown subcommand {}", other); std::process::exit(2); }
     }
